@@ -172,10 +172,23 @@ READ_NEIGHBORS = "PyMatterSim.neighbors.read_neighbors.read_neighbors"
 REMOVE_PBC = "PyMatterSim.utils.pbc.remove_pbc"
 
 
+def minimum_image(row, Hm, pm, d):
+    """D = remove_pbc(row, H, ppp) as specified by the C02 contract (C02.pbc_spec_row: sum_k (m_k - rint(m_k) ppp_k) H[k,:],
+    m = row H^-1).  C15 needs no property of the minimum image other than that it is this function of (row, H, ppp), so the
+    d components are kept as applications of uninterpreted function symbols MINIMAGE<d>_<c>(row, H, ppp) (keeps the queries
+    free of the rational functions of H)."""
+    args = [sv.zr(x) for x in row] + [sv.zr(x) for r in Hm for x in r] + [sv.zr(sv.to_real(x)) for x in pm]
+    out = []
+    for c in range(d):
+        f = z3.Function(f"MINIMAGE{d}_{c}", *([z3.RealSort()] * len(args)), z3.RealSort())
+        out.append(sv.SV(f(*args)))
+    return out
+
+
 def remove_pbc_contract(interp, args, kwargs):
     """Callee contract of remove_pbc (proved for the real body by contracts/C02.py, clauses a/b for every mask in {0,1}^d):
-    requires det(hmatrix) != 0, ppp_k in {0,1}; ensures row r of the result is sum_k (m_k - rint(m_k) ppp_k) H[k,:] with
-    m = RIJ[r] H^-1 — the term C02.pbc_spec_row."""
+    requires det(hmatrix) != 0, ppp_k in {0,1}; ensures row r of the result is minimum_image(RIJ[r], hmatrix, ppp)
+    (= the term C02.pbc_spec_row)."""
     from contracts import C02
     from pyvc.state import cur
     names = ["RIJ", "hmatrix", "ppp"]
@@ -189,20 +202,20 @@ def remove_pbc_contract(interp, args, kwargs):
     A.require_dim_eq(P.shape[0], d, "call:remove_pbc:pre(ppp-length)")
     A.require_dim_eq(R.shape[-1], d, "call:remove_pbc:pre(RIJ-columns)")
     Hm = A.to_list(H)
-    det, G = C02._inv_spec(Hm, d)
+    det, _ = C02._inv_spec(Hm, d)
     cur().require(sv.cmp("!=", det, 0), "call:remove_pbc:pre(det!=0)")
     pm = A.to_list(P)
     for x in pm:
         cur().require(sv.or_(sv.cmp("==", x, 0), sv.cmp("==", x, 1)), "call:remove_pbc:pre(ppp-in-{0,1})")
     rr = R.reader()
     if R.ndim == 1:
-        row = C02.pbc_spec_row([rr((c,)) for c in range(d)], Hm, G, pm, d)
+        row = minimum_image([rr((c,)) for c in range(d)], Hm, pm, d)
         return A.new_arr((1, d), lambda idx: A._pick(row, idx[1]), "float")
     if R.ndim != 2:
         raise sv.EngineError("remove_pbc contract: RIJ rank")
 
     def fn(idx):
-        row = C02.pbc_spec_row([rr((idx[0], c)) for c in range(d)], Hm, G, pm, d)
+        row = minimum_image([rr((idx[0], c)) for c in range(d)], Hm, pm, d)
         return A._pick(row, idx[1])
     return A.new_arr((R.shape[0], d), fn, "float")
 
@@ -576,7 +589,7 @@ class DivergenceCurl(Unit):
 
         def D(k):       # minimum image of R_j - R_i, j = neighbour k of p
             j = _nb_index(nbi, p, k)
-            return C02.pbc_spec_row([sv.sub(rr((j, c)), rr((p, c))) for c in range(d)], inp["Hm"], inp["G"], inp["pm"], d)
+            return minimum_image([sv.sub(rr((j, c)), rr((p, c))) for c in range(d)], inp["Hm"], inp["pm"], d)
 
         def dU(k):
             j = _nb_index(nbi, p, k)
